@@ -41,6 +41,7 @@ from itertools import product
 from math import sqrt
 from typing import Literal
 
+from solvor import _verif
 from solvor.types import Result, Status
 from solvor.utils import reconstruct_path
 
@@ -87,6 +88,8 @@ def astar[S](
 
         iterations += 1
         closed.add(current)
+        if _verif.ENABLED:  # pragma: no cover
+            _verif.emit("settle", solver="astar", node=current, label=g[current])
 
         # Nodes beyond the cost limit are neither expanded nor accepted as goal: a goal reached through them may have a
         # cheaper route through a pruned node, so its cost would not be the shortest distance
